@@ -305,6 +305,9 @@ func (r *resolver) applyDeviation(y *Module, d *Deviation) error {
 	hasDets, _ := target.(HasDetails)
 	hasType, _ := target.(Leafable)
 	hasListDets, _ := target.(HasListDetails)
+	if err := d.checkTarget(target); err != nil {
+		return err
+	}
 	if d.Add != nil {
 		if d.Add.configPtr != nil {
 			if hasDets.IsConfigSet() {
@@ -454,6 +457,47 @@ func (r *resolver) applyDeviation(y *Module, d *Deviation) error {
 
 	}
 	return nil
+}
+
+// checkTarget rejects a deviate statement that names a property the target
+// node does not have, e.g. unique on a leaf or units on a container.
+func (d *Deviation) checkTarget(target Definition) error {
+	_, hasDets := target.(HasDetails)
+	_, hasType := target.(Leafable)
+	_, hasListDets := target.(HasListDetails)
+	_, hasMusts := target.(HasMusts)
+	_, isList := target.(*List)
+	var err error
+	check := func(used bool, applies bool, property string) {
+		if used && !applies && err == nil {
+			err = fmt.Errorf("%s does not apply to deviation target %s", property, d.Ident())
+		}
+	}
+	if x := d.Add; x != nil {
+		check(x.configPtr != nil, hasDets, "config")
+		check(x.mandatoryPtr != nil, hasDets, "mandatory")
+		check(x.maxElementsPtr != nil, hasListDets, "max-elements")
+		check(x.minElementsPtr != nil, hasListDets, "min-elements")
+		check(len(x.musts) > 0, hasMusts, "must")
+		check(x.units != "", hasType, "units")
+		check(x.HasDefault(), hasType, "default")
+		check(len(x.unique) > 0, isList, "unique")
+	}
+	if x := d.Replace; x != nil {
+		check(x.configPtr != nil, hasDets, "config")
+		check(x.mandatoryPtr != nil, hasDets, "mandatory")
+		check(x.maxElementsPtr != nil, hasListDets, "max-elements")
+		check(x.minElementsPtr != nil, hasListDets, "min-elements")
+		check(x.units != "", hasType, "units")
+		check(x.HasDefault(), hasType, "default")
+	}
+	if x := d.Delete; x != nil {
+		check(len(x.musts) > 0, hasMusts, "must")
+		check(x.units != "", hasType, "units")
+		check(x.HasDefault(), hasType, "default")
+		check(len(x.unique) > 0, isList, "unique")
+	}
+	return err
 }
 
 func isArrayStringEqual(a []string, b []string) bool {
